@@ -109,8 +109,17 @@ func (b *budgetReader) Read(p []byte) (int, error) {
 	return b.r.Read(p)
 }
 
+var c15flip bool
+
+// newBudget: a plain (non-ByteReader) source on a Read-call budget; every other one delivers its last byte together
+// with io.EOF (legal for an io.Reader, e.g. iotest.DataErrReader) - acceptance must not depend on that.
 func newBudget(data []byte) *budgetReader {
-	return &budgetReader{r: bytes.NewReader(data), budget: 2*len(data) + 16}
+	c15flip = !c15flip
+	var src io.Reader = bytes.NewReader(data)
+	if c15flip {
+		src = &hostileReader{data: data, eofWith: true, budget: 1 << 30}
+	}
+	return &budgetReader{r: src, budget: 2*len(data) + 16}
 }
 
 // reencode: every Map produced by a decoder goes through its encoders (panics are caught by the worker).
